@@ -21,6 +21,13 @@ pub fn consts() {
 
 pub fn c03(seed: u64, n: usize) {
     let mut r = Rng::new(seed ^ 0xC03);
+    // the hard-coded robots, as compiled, against the table translated from parameters_robots.rs
+    for (name, p) in crate::gen::presets() {
+        let mut l = Line::new("C03", "preset-table", "preset");
+        l.s(&crate::props_file::hexs(name)).arrow();
+        KSpec::bare(p).encode(&mut l);
+        l.emit();
+    }
     for i in 0..n {
         let (mut rfam, mut p) = gen_params(&mut r);
         // 5-DOF declarations: the parameter loader blocks J6 with a zero sign correction, hand-made sets may keep +-1
